@@ -1056,11 +1056,63 @@ ASSUMPTIONS = [
 ]
 
 
+def run_function_of_values_since_reset(ck):
+    """With a history callback attached, everything reported after reset() - detector outputs AND the callback's
+    scalar logs - is a function of the configuration and the values seen since the reset: it equals what a new
+    detector with a new callback reports on those values alone."""
+    from frouros.callbacks import HistoryConceptDrift
+    from frouros.utils.stats import BaseStat
+
+    rng = ck.rng
+    ck.rule("callback + reset: pre-stream, reset(), post-stream on a detector with HistoryConceptDrift vs a new detector/callback on the post-stream alone: flags, counters and every scalar history list must be identical (non-KSWIN detectors)")
+
+    def scal(v):
+        v = v.get() if isinstance(v, BaseStat) else v
+        if v is None:
+            return "nan"
+        if isinstance(v, (bool, int, float, np.integer, np.floating, np.bool_)):
+            return float(v).hex() if not (isinstance(v, float) and math.isnan(v)) else "nan"
+        return "obj"
+
+    for det in ALL:
+        if det.name == "KSWIN":
+            continue
+        for _ in range(3 if ck.tier != "thorough" else 15):
+            c = det.gen_cfg(rng)
+            pre = gen_ops(rng, det, c, rng.choice([7, 25, 60]) if det.name != "BOCD" else 12, resets=False)
+            post = gen_ops(rng, det, c, rng.choice([10, 40]) if det.name != "BOCD" else 12, resets=False)
+            cb1, cb2 = HistoryConceptDrift(name="h"), HistoryConceptDrift(name="h")
+            d1, d2 = det.make(c, callbacks=[cb1]), det.make(c, callbacks=[cb2])
+            try:
+                for v in pre:
+                    d1.update(value=v)
+                d1.reset()
+                o1 = []
+                for v in post:
+                    d1.update(value=v)
+                    o1.append(canon(det.observe(d1)))
+                o2 = []
+                for v in post:
+                    d2.update(value=v)
+                    o2.append(canon(det.observe(d2)))
+            except Exception as e:  # noqa: BLE001
+                ck.violation(dict(clause="raises", detector=det.name, error=type(e).__name__), dict(detector=det.name, config=c, pre=pre, post=post, error=repr(e)))
+                continue
+            h1 = {k: [scal(x) for x in v] for k, v in cb1.history.items()}
+            h2 = {k: [scal(x) for x in v] for k, v in cb2.history.items()}
+            ck.case(dict(kind="callback-reset", detector=det.name, config=c, pre=len(pre), post=len(post)), nontrivial=True, key=repr((det.name, c, pre, post)))
+            ck.count("callback_reset_cases")
+            if o1 != o2 or h1 != h2:
+                bad = next((k for k in h1 if h1[k] != h2.get(k)), "outputs")
+                ck.violation(dict(clause="function-of-values-since-reset", detector=det.name, var=bad), dict(what="after reset() the detector / its history callback reports something a new detector with a new callback does not report on the same values", detector=det.name, config=c, pre=pre, post=post, var=bad, after_reset=h1.get(bad), fresh=h2.get(bad)))
+
+
 def main(tier, seed):
     ck = Check("C16", tier, seed)
     ck.proof = check_props("C16")
     ck.assumptions = ASSUMPTIONS
     run(ck)
+    run_function_of_values_since_reset(ck)
     return ck.finish()
 
 
